@@ -10,11 +10,11 @@ CHECKS = {
    ref='5 C12'),
  'C02': dict(cat='other', tech='bounded run-time contract on x86_mn.asm / asm_att ("every candidate decodes, with its full length, to exactly the requested instruction") over generated abstract instructions; reference = independent IA-32 spec decoder specs/x86dec.py; immediate and displacement boundary values; the immediate-fitting helper check_imm_size (+ imm_to_generic) verified from its AST by VC generation (pyvc, z3; callee contracts of C14) for all immediates',
    text='Bounded, structurally complete over the operand-shape space: one abstract instruction per (mnemonic, operand kinds/sizes, register class, prefix set, addressing shape) from the spec decoding of the enumerated decoder trie (~3.5k quick / all register numbers and SIB bytes thorough), each rendered in Intel and AT&T syntax with the boundary immediates (-129..2^32-1) and displacements (-129..128); every returned candidate is decoded by the spec decoder and compared structurally (mnemonic class, operands modulo width, prefixes). Proved (359 obligations): check_imm_size returns None or a field whose zero-/sign-extension is congruent to the immediate modulo the width the form stands for - a value that does not fit excludes the form. Not a proof of the whole: the assembler search (asm_candidates, 400 lines of table matching) is outside the VC generator.',
-   note='Trusted: specs/x86dec.py, the printer bounded/asmgen.py (forms it cannot print unambiguously are skipped: 16-bit addressing, relative/far operands, x87 in AT&T, string ops in AT&T). MMX/SSE not generated.',
+   note='Trusted: specs/x86dec.py, the printer bounded/asmgen.py (forms it cannot print unambiguously are skipped: 16-bit addressing, relative/far operands, x87 in AT&T, string ops in AT&T). MMX/SSE: 5 operand forms per table row and mandatory prefix, reference GNU objdump (checks/asmsse.py).',
    ref='5 C02'),
  'C03': dict(cat='other', tech='bounded run-time contract on the composition dis . asm and asm . str . dis over generated instructions; canonical byte strings supplied by the real GNU assembler (as --32, executed as an external function)',
    text='Bounded: for every generated line and every candidate c: dis accepts c, consumes len(c), and asm(str(dis(c))) contains c. Converse: for every byte string of the corpus (and the boundary immediate/displacement variants assembled by GNU as) that GNU as reproduces from the reference rendering, asm(str(dis(b))) contains b. ~235k obligations quick.',
-   note='Trusted: GNU as 2.40 as the reference assembler; specs/x86dec.py + bounded/asmgen.py for the reference rendering. MMX/SSE not generated.',
+   note='Trusted: GNU as 2.40 as the reference assembler; specs/x86dec.py + bounded/asmgen.py for the reference rendering. MMX/SSE: 5 operand forms per table row and mandatory prefix, reference GNU objdump / GNU as (checks/asmsse.py).',
    ref='5 C03'),
  'C09': dict(cat='other', tech='bounded run-time contract on x86_mn.__str__ in both syntaxes: re-parse by the matching miasmX parser must contain the original bytes; for compiler-emittable instructions the real GNU assembler (both syntax modes, executed) must accept the text and produce an encoding of the same instruction (compared by the spec decoder)',
    text='Bounded over the same corpus as C03 (canonical encodings incl. boundary variants): Intel and AT&T renderings fed back to asm / asm_att; renderings without relative/far/absolute operands are assembled by GNU as in the matching mode and the output decoded by specs/x86dec.py must denote the same instruction. ~230k obligations quick.',
